@@ -97,4 +97,118 @@ indexed with the second bulk's metas -/
 theorem pooled_counterexample :
     (run stepPooled [.accept 1, .accept 2, .work, .work]).out = [(1, some 2), (2, some 2)] := by decide
 
+/-! ## the ingestor -> storage-client boundary
+
+`Ingestor.ProcessDocuments` takes a `DocsMetasCompressor` from a pool, compresses into the compressor's own buffers,
+hands those buffers to `client.StoreDocuments` and puts the compressor back only when `ProcessDocuments` returns
+(`defer`), i.e. after the client has consumed them.  Here `accept` = "a bulk has compressed and its client call is in
+flight", `work` = "that client call consumes the blocks and the bulk returns".  Discipline `stepHeld`: the pooled
+buffer is released by the consumer, not at hand-over. -/
+
+def workHeld (s : St) : St :=
+  match s.queue with
+  | [] => s
+  | (b, p) :: q => { s with queue := q, out := s.out ++ [(p, readBuf s.mem b)], free := b :: s.free }
+
+def stepHeld (s : St) : Ev → St
+  | .accept p =>
+    match s.free with
+    | b :: fr => { s with mem := (b, p) :: s.mem, queue := s.queue ++ [(b, p)], free := fr }
+    | [] => { s with mem := (s.next, p) :: s.mem, queue := s.queue ++ [(s.next, p)], next := s.next + 1 }
+  | .work => workHeld s
+
+/-- no buffer is both pooled and in flight, none is in flight twice, and every in-flight buffer still holds the
+blocks of its bulk -/
+def InvHeld (s : St) : Prop :=
+  (s.queue.map (·.1) ++ s.free).Nodup ∧ (∀ b, b ∈ s.queue.map (·.1) ++ s.free → b < s.next) ∧
+  (∀ t, t ∈ s.queue → readBuf s.mem t.1 = some t.2) ∧ (∀ o, o ∈ s.out → o.2 = some o.1)
+
+theorem readBuf_cons_ne (mem : List (Nat × Nat)) (b b' p : Nat) (h : b' ≠ b) :
+    readBuf ((b', p) :: mem) b = readBuf mem b := by
+  simp [readBuf, h]
+
+theorem readBuf_cons_eq (mem : List (Nat × Nat)) (b p : Nat) : readBuf ((b, p) :: mem) b = some p := by
+  simp [readBuf]
+
+theorem invHeld_step (s : St) (e : Ev) (h : InvHeld s) : InvHeld (stepHeld s e) := by
+  obtain ⟨hnd, hlt, hq, ho⟩ := h
+  cases e with
+  | accept p =>
+    unfold stepHeld
+    cases hf : s.free with
+    | nil =>
+      simp only
+      rw [hf] at hnd hlt
+      simp only [List.append_nil] at hnd hlt
+      refine ⟨?_, ?_, ?_, ho⟩
+      · simp only [List.map_append, List.map_cons, List.map_nil, List.append_nil]
+        rw [List.nodup_append]
+        refine ⟨hnd, by simp, ?_⟩
+        intro a ha b hb
+        simp only [List.mem_singleton] at hb
+        have := hlt a ha
+        omega
+      · intro b hb
+        simp only [List.map_append, List.map_cons, List.map_nil, List.append_nil, List.mem_append, List.mem_singleton] at hb
+        show b < s.next + 1
+        rcases hb with hb | rfl
+        · have := hlt b hb; omega
+        · omega
+      · intro t ht
+        simp only [List.mem_append, List.mem_singleton] at ht
+        rcases ht with ht | rfl
+        · have hlt' := hlt t.1 (List.mem_map.mpr ⟨t, ht, rfl⟩)
+          rw [readBuf_cons_ne _ _ _ _ (by omega)]
+          exact hq t ht
+        · exact readBuf_cons_eq _ _ _
+    | cons b fr =>
+      simp only
+      rw [hf] at hnd hlt
+      have hperm : (s.queue.map (·.1) ++ b :: fr).Perm ((s.queue ++ [(b, p)]).map (·.1) ++ fr) := by
+        simp only [List.map_append, List.map_cons, List.map_nil, List.append_assoc, List.cons_append, List.nil_append]
+        exact List.Perm.refl _
+      refine ⟨hperm.nodup_iff.mp hnd, ?_, ?_, ho⟩
+      · intro x hx; exact hlt x (hperm.mem_iff.mpr hx)
+      · intro t ht
+        simp only [List.mem_append, List.mem_singleton] at ht
+        rcases ht with ht | rfl
+        · have hne : b ≠ t.1 := by
+            intro hbe
+            have hmem : t.1 ∈ s.queue.map (·.1) := List.mem_map.mpr ⟨t, ht, rfl⟩
+            rw [List.nodup_append] at hnd
+            exact hnd.2.2 t.1 hmem b (by simp) hbe.symm
+          rw [readBuf_cons_ne _ _ _ _ hne]
+          exact hq t ht
+        · exact readBuf_cons_eq _ _ _
+  | work =>
+    unfold stepHeld workHeld
+    cases hqq : s.queue with
+    | nil => exact ⟨hnd, hlt, hq, ho⟩
+    | cons t q =>
+      obtain ⟨b, p⟩ := t
+      simp only
+      rw [hqq] at hnd hlt hq
+      have hperm : (((b, p) :: q).map (·.1) ++ s.free).Perm (q.map (·.1) ++ b :: s.free) := by
+        simp only [List.map_cons, List.cons_append]
+        exact List.perm_middle.symm
+      refine ⟨hperm.nodup_iff.mp hnd, ?_, ?_, ?_⟩
+      · intro x hx; exact hlt x (hperm.mem_iff.mpr hx)
+      · intro t ht; exact hq t (List.mem_cons_of_mem _ ht)
+      · intro o hoo
+        simp only [List.mem_append, List.mem_singleton] at hoo
+        rcases hoo with hoo | rfl
+        · exact ho o hoo
+        · exact hq (b, p) (by simp)
+
+/-- **a pooled buffer held until its consumer is done is safe**: for every interleaving of bulks reaching their
+client call and client calls completing, every client call sees the blocks of its own bulk -/
+theorem held_safe (evs : List Ev) : ∀ o, o ∈ (run stepHeld evs).out → o.2 = some o.1 := by
+  have h0 : InvHeld St.init := ⟨by simp [St.init], fun b hb => by simp [St.init] at hb, fun t ht => (by cases ht), fun o ho => (by cases ho)⟩
+  have : ∀ (evs : List Ev) (s : St), InvHeld s → InvHeld (evs.foldl stepHeld s) := by
+    intro evs
+    induction evs with
+    | nil => intro s h; exact h
+    | cons e evs ih => intro s h; exact ih _ (invHeld_step s e h)
+  exact (this evs St.init h0).2.2.2
+
 end SV.Handover
